@@ -44,7 +44,10 @@ def load_replay(path):
 def corpus_cases(pid):
     d = os.path.join(ROOT, "corpus")
     out = []
-    for sub in ("common", pid):
+    # VERIF_NO_SEED_CORPUS=1 (experiments only, II.5): leave out the remembered failures of the seeded
+    # changes, so that a regression run measures what the generators find by themselves
+    subs = ("common",) if os.environ.get("VERIF_NO_SEED_CORPUS") else ("common", pid)
+    for sub in subs:
         dd = os.path.join(d, sub)
         if os.path.isdir(dd):
             for fn in sorted(os.listdir(dd)):
@@ -287,8 +290,10 @@ def mixed_case(rng, tables):
         return c
     if k < 0.65:
         return gen.mutated_stream(rng, tables)
-    if k < 0.85:
+    if k < 0.82:
         return gen.mutated_stream(rng, tables, conformant_templates=True)
+    if k < 0.9:
+        return gen.header_field_case(rng, tables)
     return gen.malformed(rng)
 
 
@@ -466,8 +471,10 @@ class C14(Prop):
     technique = "Coq: success characterisation per version (a packet decodes iff the bytes its header announces are present); correspondence on every cut point"
     level_text = ("Theorems C14_* (coq/Props/C14.v): a V5/V7 buffer shorter than 24+48n / 24+52n, and an IPFIX buffer shorter than its message length, "
                   "is reported as one Error whose remaining is the buffer, with the parser state unchanged, for every content and state; packets before it "
-                  "in the buffer are reported unchanged (C11 framing).")
-    level_note = "the V9 clause (cut inside a flowset) is covered by correspondence on every cut point; its theorem is stated for the flowset step"
+                  "in the buffer are reported unchanged (C11 framing).  C14_packet_cut / C14_buffer_cut: every V5, V7 or IPFIX packet the parser accepts, cut at any "
+                  "point strictly inside, is one Error carrying the truncated bytes with the state untouched; C14_v9_packet: the same for V9 at every cut that "
+                  "is not a flowset boundary (templates of complete flowsets before the cut may be learned).")
+    level_note = "covers the property's whole quantifier: the property itself excludes V9 cuts on a flowset boundary (there the crate reports the packet with the flowsets that are present); correspondence runs every cut point of generated packets in addition"
     rule = ("conformant sequences of 1-3 packets; the last packet cut at every point (<= 40 bytes) or at 24+ sampled points including header/set "
             "boundaries, each cut on a fresh parser after the preceding packets; reference parser gets only the preceding packets; non-trivial = the "
             "preceding packets decode or the cut is inside the first packet; distinct by hash")
